@@ -209,6 +209,44 @@ def db_exec(path, stmts):
         return "dberr:" + type(e).__name__
 
 
+def index_rowid_swap(path):
+    """Damage confined to the primary-key index: swap the rowids stored behind two keys in the leaf page of
+    sqlite_autoindex_models_1 (all pages stay well-formed; only PRAGMA integrity_check notices that index and
+    table disagree).  Returns True when applied."""
+    if not os.path.exists(path):
+        return False
+    try:
+        conn = sqlite3.connect(path)
+        try:
+            if conn.execute("PRAGMA integrity_check").fetchone() != ("ok",):
+                return False
+            (page_size,) = conn.execute("PRAGMA page_size").fetchone()
+            r = conn.execute("SELECT rootpage FROM sqlite_master WHERE type='index' AND tbl_name='models'").fetchone()
+            rows = conn.execute("SELECT rowid, txt_hash, pymoca_version FROM models ORDER BY rowid").fetchall()
+        finally:
+            conn.close()
+    except sqlite3.DatabaseError:
+        return False
+    cand = [x for x in rows if 2 <= x[0] < 128 and isinstance(x[1], str) and isinstance(x[2], str)][:2]
+    if r is None or len(cand) < 2:
+        return False
+    raw = bytearray(open(path, "rb").read())
+    lo, hi = (r[0] - 1) * page_size, r[0] * page_size
+    (ra, ha, va), (rb, hb, vb) = cand
+    edits = []
+    for h, v, old, new in ((ha, va, ra, rb), (hb, vb, rb, ra)):
+        key = (h + v).encode()
+        pos = raw.find(key, lo, hi)
+        if pos < 0 or raw[pos + len(key)] != old:
+            return False
+        edits.append((pos + len(key), new))
+    for at, new in edits:
+        raw[at] = new
+    with open(path, "wb") as fh:
+        fh.write(bytes(raw))
+    return True
+
+
 def store_facts(path, texts):
     """rows of the models table as (text index | -1, version, status)"""
     if not os.path.exists(path):
@@ -217,6 +255,8 @@ def store_facts(path, texts):
     try:
         c = sqlite3.connect("file:%s?mode=ro" % path, uri=True)
         try:
+            if c.execute("PRAGMA integrity_check").fetchone() != ("ok",):
+                return "unreadable:integrity"
             rows = c.execute("SELECT txt_hash, pymoca_version, data FROM models").fetchall()
         finally:
             c.close()
@@ -314,7 +354,11 @@ def _handler(case):
                 o["applied"] = db_exec(path, stmts)
             elif k == "file":
                 kind = op[1]
-                if kind == "delete":
+                if kind == "index_swap_restart":   # index damage, then the process restarts
+                    o["applied"] = "ok" if index_rowid_swap(path) else "noop"
+                    importlib.reload(pymoca.parser)
+                    _wrap_parse()
+                elif kind == "delete":
                     if os.path.exists(path):
                         os.remove(path)
                 elif kind == "zero":
